@@ -998,6 +998,9 @@ func main() {
 	longLists()
 	phase["long-lists"] = time.Since(t2).Seconds()
 	t2 = time.Now()
+	candidateFamily()
+	phase["candidate-family"] = time.Since(t2).Seconds()
+	t2 = time.Now()
 	var st stats
 	errorShapes(&st)
 	st.flush()
@@ -1032,7 +1035,7 @@ func main() {
 		"each with 12 candidate signatures (expected aggregate, +g1, minus first/last term, identity signature, +T of order 3, +cofactor point, sign-bit flip, x-lsb flip, lengths 0/47/49); "+
 		"oracle: true iff no key is the identity and candidate == canonical encoding of sum sk_i*H_i(m_i) (refbls, known discrete logs). "+
 		"VerifyBLSSignatureOneMessage: all 4^L key sequences L=1..4 x 3 combos x 2 policies x same candidates vs Verify under the reference sum of keys (pairing-free verdict and the library's Verify under the decoded reference sum). "+
-		"Long lists: lengths {7,8,9,15,16,17,33,65} (thorough up to 129) x 5 list patterns (all distinct; one message; one key; two keys alternating; distinct messages with a cancelling pair last) x 4 candidates, generic oracle. Error shapes: empty, each list +-1, nil/wrong-size hasher and ECDSA key at every index, L=1..4. A case is distinct by (function, L, shape index, policy) or (error class).")
+		"Candidate family: the full structured family of C01/C05 (957 strings around the expected aggregate) as the signature of two fixed lists (per-distinct-key and per-distinct-message path), true for exactly one string. Long lists: lengths {7,8,9,15,16,17,33,65} (thorough up to 129) x 5 list patterns (all distinct; one message; one key; two keys alternating; distinct messages with a cancelling pair last) x 4 candidates, generic oracle. Error shapes: empty, each list +-1, nil/wrong-size hasher and ECDSA key at every index, L=1..4. A case is distinct by (function, L, shape index, policy) or (error class).")
 	run.Set("shapes_per_block", shapeCounts)
 	run.Set("key_alphabet", keyNames)
 	run.Set("policies", policies)
@@ -1137,4 +1140,64 @@ func longLists() {
 		}
 		run.Distinct(fmt.Sprintf("long/%d/%s", j.L, j.pat))
 	})
+}
+
+
+// candidateFamily: the FULL structured candidate family (the one C01/C05 offer to Verify; 957 strings
+// around the expected aggregate) as the signature of two fixed lists: [a, b] on two messages
+// (per-distinct-key / tie path) and [a, b, a] on one message (per-distinct-message path). True for
+// exactly one string.
+func candidateFamily() {
+	base := scalarXY(3, 5)
+	type shapeT struct {
+		name string
+		sks  []*big.Int
+		msgs [][]byte
+	}
+	m1, m2 := []byte("c02 family message one"), []byte("c02 family message two")
+	k2 := mod(new(big.Int).Add(base, big.NewInt(99)))
+	shapes := []shapeT{
+		{"two-keys-two-messages", []*big.Int{base, k2}, [][]byte{m1, m2}},
+		{"three-couples-one-message", []*big.Int{base, k2, base}, [][]byte{m1, m1, m1}},
+	}
+	for _, sh := range shapes {
+		sh := sh
+		tags := make([]string, len(sh.sks))
+		pks := make([]crypto.PublicKey, len(sh.sks))
+		for i := range tags {
+			tags[i] = "c02-family"
+			pks[i] = libPK(sh.sks[i])
+		}
+		_, enc := oracleMany(sh.sks, sh.msgs, tags, nil)
+		e, err := refbls.DecodeG1(enc)
+		if err != nil {
+			run.Fatal("decoding the expected aggregate: %v", err)
+		}
+		cands := refbls.G1Candidates(e, hashPoint(m1, "c02-family"))
+		ev.Par(len(cands), func(i int) {
+			c := cands[i]
+			var st stats
+			defer st.flush()
+			hs := make([]hash.Hasher, len(pks))
+			for k := range hs {
+				hs[k] = newHasher("c02-family")
+			}
+			want := bytes.Equal(c.Bytes, enc)
+			got, err := crypto.VerifyBLSSignatureManyMessages(pks, c.Bytes, sh.msgs, hs)
+			st.add("evaluations", 1)
+			if err != nil || got != want {
+				what := "accepts-invalid"
+				if want {
+					what = "rejects-valid"
+				}
+				cl := c.Name
+				if k := strings.IndexByte(cl, '/'); k >= 0 {
+					cl = cl[:k]
+				}
+				run.Violation(fmt.Sprintf("many:family:%s:%s:%s", what, cl, sh.name), fmt.Sprintf("VerifyBLSSignatureManyMessages (%s) with candidate %s = (%v,%v), the definition says %v", sh.name, c.Name, got, err, want),
+					map[string]any{"shape": sh.name, "candidate": c.Name, "signature": ev.Hex(c.Bytes), "expected_aggregate": ev.Hex(enc)})
+			}
+			run.Distinct("fam/" + sh.name + "/" + c.Name)
+		})
+	}
 }
